@@ -89,8 +89,7 @@ def main():
     finally:
         sh(f"git -C /repo worktree remove --force {wt}")
         shutil.rmtree(wt, ignore_errors=True)
-    # evidence files were rewritten by the mutant runs: restore them from git so that committed evidence is of /repo itself
-    sh(f"git -C {V} checkout -- evidence")
+    # runs with VERIF_REPO write their evidence and replays under .work/alt-tree/, never into evidence/
 
 
 if __name__ == "__main__":
